@@ -10,19 +10,25 @@ package kvstore
 
 //@ import table "github.com/olric-data/olric/internal/kvstore/table"
 
+// over: the table is above the garbage threshold that triggers compaction (float64 arithmetic is treated as real).
+//@ pure func over(t *table.Table) bool = t.garbage >= t.allocated * maxGarbageRatio
+
 //@ func (k *KVStore) Compaction() (bool, error)
-//@   props C12 C11
+//@   props C12 C11 C20
 //@   requires #inv_in: k.inv() && k.tableSize <= 4611686018427387904 && off(k.tables) == 0
 //@   ensures #dropping_an_idle_table_keeps_live_tables_registered [C12 C11]: result.0 ==> forall c uint64 {c in k.tablesByCoefficient} ::
 //@                old(c in k.tablesByCoefficient) && old(k.tablesByCoefficient[c]) != nil && old(k.tablesByCoefficient[c].state) != table.RecycledState ==>
 //@                (c in k.tablesByCoefficient) && k.tablesByCoefficient[c] == old(k.tablesByCoefficient[c])
+//@   ensures #done_means_no_table_is_over_the_garbage_threshold [C20]: result.0 ==> forall j int {k.tables[j]} :: 0 <= j && j < len(k.tables) ==> !over(k.tables[j])
 //@   ensures #states_kept [C12 C11]: result.0 ==> forall t *table.Table {t.state} :: t.state == old(t.state)
 //@   loop 0 invariant #store_ok: k.inv()
+//@   loop 0 invariant #clean_so_far [C20]: forall j int {k.tables[j]} :: 0 <= j && j <= rangeindex && j < len(k.tables) ==> !over(k.tables[j])
 //@   loop 0 invariant #nothing_yet: len(k.tables) == old(len(k.tables)) && off(k.tables) == 0 && (forall i int {k.tables[i]} :: 0 <= i && i < len(k.tables) ==> k.tables[i] != nil && k.tables[i].inv()) &&
 //@                (forall c uint64 {c in k.tablesByCoefficient} :: (c in k.tablesByCoefficient) == old(c in k.tablesByCoefficient) && k.tablesByCoefficient[c] == old(k.tablesByCoefficient[c])) &&
 //@                (forall t *table.Table {t.state} :: t.state == old(t.state))
 //@   loop 1 invariant #bounds: 0 <= i && i <= len(k.tables) && off(k.tables) == 0
 //@   loop 1 invariant #tables_ok: forall j int {k.tables[j]} :: 0 <= j && j < len(k.tables) ==> k.tables[j] != nil && k.tables[j].inv()
+//@   loop 1 invariant #all_clean [C20]: forall j int {k.tables[j]} :: 0 <= j && j < len(k.tables) ==> !over(k.tables[j])
 //@   loop 1 invariant #states: forall t *table.Table {t.state} :: t.state == old(t.state)
 //@   loop 1 invariant #live_tables_registered [C12 C11]: forall c uint64 {c in k.tablesByCoefficient} :: old(c in k.tablesByCoefficient) && old(k.tablesByCoefficient[c]) != nil && old(k.tablesByCoefficient[c].state) != table.RecycledState ==>
 //@                (c in k.tablesByCoefficient) && k.tablesByCoefficient[c] == old(k.tablesByCoefficient[c])
